@@ -887,4 +887,22 @@ theorem NoEsc_modifyPrefix (nm : Str) (a b : Nat) (hn : NameOk nm) : NoEsc (modi
 def modNode (k : Nat) (nm : Str) (text : Str) (unit : Option (Nat × Str)) : Node :=
   { kind := .mod, indent := k, name := some nm, raw := some (.text text), units := unit.map Prod.snd }
 
+/-- a boolean array text contains no `#`, backslash, `$` -/
+theorem rendered_bool_plain {s : Str} {sh : List Nat} (bs : List Bool)
+    (h : Rendered s sh (bs.map (fun b => Tok.bare (if b then "true".toList else "false".toList)))) :
+    ∀ ch ∈ s, ch ≠ '#' ∧ ch ≠ '\\' ∧ ch ≠ '$' := by
+  have ht : ∀ ch ∈ "true".toList, ch ≠ '#' ∧ ch ≠ '\\' ∧ ch ≠ '$' := by decide
+  have hf : ∀ ch ∈ "false".toList, ch ≠ '#' ∧ ch ≠ '\\' ∧ ch ≠ '$' := by decide
+  intro ch hch
+  rcases rendered_chars h ch hch with rfl | rfl | rfl | ⟨t, htm, hct⟩
+  · decide
+  · decide
+  · decide
+  · obtain ⟨b, _, he⟩ := List.mem_map.mp htm
+    have he' : (if b then "true".toList else "false".toList) = t := by injection he
+    subst he'
+    cases b
+    · exact hf ch hct
+    · exact ht ch hct
+
 end SciVerif.C13
